@@ -9,7 +9,9 @@ Flow of one run
      the model's labelling).  The harness replays every distinct input through the real
      DBSCAN with both back ends (metric / scalar type / power-of-two scale varied per case).
   3. impl -> spec: the harness also records seeded random larger data sets (1..150 rows,
-     1..4 dimensions, chains with gaps exactly eps, blobs, duplicates, bridges, all-identical).
+     1..4 dimensions, chains with gaps exactly eps, blobs, duplicates, bridges, all-identical,
+     single rows) and a family of widely spread half-integer sets in 2..4 dimensions (small eps
+     relative to the spread: deep cover trees with many children per node).
   4. TLC validates every recorded event with DbscanTrace.tla, i.e. with the very predicates
      of step 1: the seven clauses of the labelling, back-end independence, and PredictOK.
   5. A failed clause is a VIOLATION (or a KNOWN-FINDING when listed in known_findings/C13.json);
@@ -47,7 +49,7 @@ LANES = {
     ],
 }
 
-MUST_HIT = ("Run", "FitOk", "Core", "Border", "Noise", "TwoClusters", "ProvisionalNoise",
+MUST_HIT = ("Run", "FitOk", "SingleRow", "AllIdentical", "Core", "Border", "Noise", "TwoClusters", "ProvisionalNoise",
             "AmbiguousBorder", "ExactEps", "Duplicates", "BackendPair",
             "PredictEmpty", "PredictNoiseWins", "PredictTie", "PredictPlurality")
 
@@ -55,7 +57,8 @@ RULE = ("Data sets: (a) every input of the Emit model-checking configurations, r
         "both back ends -- quick: all sequences of 1..5 points on the 1-D lattice {0..3} and of 1..4 points on the 2-D "
         "3x2 lattice; thorough: 1..7 points on {0..3}, 1..5 points on 3x2, 1..4 on 2x2, each with every eps / minPts "
         "of its configuration; (b) seeded random sets of 1..150 points in 1..4 dimensions (uniform lattice boxes, "
-        "blobs, chains with steps exactly eps, duplicates, bridges between two clusters, all-identical), eps from "
+        "blobs, chains with steps exactly eps, duplicates, bridges between two clusters, all-identical; widely spread "
+        "half-integer sets and far-apart islands in 2..4 dimensions with eps small relative to the spread), eps from "
         "'all noise' to 'one cluster', minPts 1..8, Manhattan / Minkowski-1 / Euclidean, f64 / f32, power-of-two "
         "scales. A data set is non-trivial when it has a border row or at least two clusters (decided by TLC from "
         "the definitions); distinct = distinct (points, key, eps, minPts)")
@@ -97,28 +100,28 @@ def run_lane(ctx, lane):
 
 def validate(ctx, events, tag, nchunks):
     """TLC trace validation of `events` (already numbered run = position) in nchunks files side
-    by side.  Returns (bads [(event index, clause)], hits, nontrivial run ids)."""
+    by side; the events are dealt round-robin so that the chunks cost about the same.
+    Returns (bads [(event index, clause)], hits, nontrivial run ids)."""
     nchunks = max(1, min(nchunks, len(events) // 50 + 1))
-    size = (len(events) + nchunks - 1) // nchunks
     jobs = []
     for c in range(nchunks):
-        part = events[c * size:(c + 1) * size]
+        part = events[c::nchunks]
         if not part:
             continue
         f = ctx.path("c13-%s-%d.ndjson" % (tag, c))
         vlib.write_ndjson(f, part)
-        jobs.append((c * size, f))
+        jobs.append((c, f))
 
     def one(job):
-        off, f = job
+        c, f = job
         v, bads = ctx.tlc_trace("cluster/DbscanTrace.tla", "cluster/DbscanTrace.cfg", f, timeout=2400)
-        return off, v, bads
+        return c, v, bads
 
     bads, hits, nontriv = [], {}, []
     with ThreadPoolExecutor(max_workers=len(jobs)) as ex:
-        for off, v, bl in ex.map(one, jobs):
+        for c, v, bl in ex.map(one, jobs):
             for (l, runid, ev, clause) in bl:
-                bads.append((off + l - 1, clause))
+                bads.append((c + (l - 1) * nchunks, clause))
             for k, n in v.get("hits", {}).items():
                 hits[k] = hits.get(k, 0) + n
             nontriv += v.get("nontrivial", [])
